@@ -455,10 +455,23 @@ def rule_generated(repo: Repo, rep: Report) -> int:
             gfun = custom if custom is not None else ((lambda i: i) if g == "id" else gf2.gray)
             pfun = (lambda i, _p=pos_tables: _p[_cur[0]][i]) if pos_tables is not None else {"id": (lambda i: i), "gray": gf2.gray}[perm]
             bad_orders = []
+            # where the constructor can be run, the label AND the geometric position of every point are taken from the run
+            # (the structural reading assumes that point i sits at the i-th angle / level, which a re-arranged point list breaks)
+            ev_tabs: Optional[Dict[int, tuple]] = {}
+            for M in orders:
+                tb_ = evaluated_table(fi, M, gray, flag)
+                if isinstance(tb_, str) or tb_[1] is None:
+                    ev_tabs = None
+                    break
+                ev_tabs[M] = tb_
+            if ev_tabs:
+                perm = f"{perm}; checked against the evaluated level / angle order"
             for M in orders:
                 _cur[0] = M
                 lab_of_index = [gfun(i) for i in range(M)]
                 pos_of_index = [pfun(i) for i in range(M)]
+                if ev_tabs:
+                    lab_of_index, pos_of_index = list(ev_tabs[M][0]), list(ev_tabs[M][1])
                 if sorted(lab_of_index) != list(range(M)) or sorted(pos_of_index) != list(range(M)):
                     bad_orders.append((M, "not a bijection"))
                     continue
